@@ -1,7 +1,7 @@
 """Property -> job sets, attribution rules, bounds."""
 
-CODEC_FAMS_Q = ['scalar', 'list', 'map', 'default', 'nocopy', 'unknown', 'ids', 'nest', 'threshold', 'twin', 'spelling', 'required']
-CODEC_FAMS_T = ['scalar', 'list', 'map', 'default', 'nocopy', 'unknown', 'ids', 'nest', 'threshold_full', 'twin', 'spelling', 'required']
+CODEC_FAMS_Q = ['mix', 'scalar', 'list', 'map', 'default', 'nocopy', 'unknown', 'ids', 'nest', 'threshold', 'twin', 'spelling', 'required']
+CODEC_FAMS_T = ['mix_full', 'scalar', 'list', 'map', 'default', 'nocopy', 'unknown', 'ids', 'nest', 'threshold_full', 'twin', 'spelling', 'required']
 
 JOBSETS = {
     'codec': {
@@ -13,6 +13,14 @@ JOBSETS = {
     },
 }
 
+JOBSETS['alloc'] = {
+    # C18: the codec corpus again, measuring allocating operations in the steady-state size+encode region
+    'gen': {'families': {'quick': CODEC_FAMS_Q, 'thorough': CODEC_FAMS_T}, 'bounds': {'quick': '2,2,2,2', 'thorough': '2,2,2,2'}, 'also': 'codec=alloc'},
+    'kinds': ['alloc'],
+    'cfg': {'quick': {'timeout_s': 600, 'solver_timeout_ms': 10000}, 'thorough': {'timeout_s': 1800, 'solver_timeout_ms': 60000}},
+    'wall': {'quick': 2400, 'thorough': 9000},
+}
+
 JOBSETS['bytes'] = {
     'gen': {'families': {'quick': ['bytes8'], 'thorough': ['bytes12']}, 'bounds': {'quick': '2,2,2,2', 'thorough': '2,2,2,2'}},
     'kinds': ['bytes'],
@@ -21,7 +29,7 @@ JOBSETS['bytes'] = {
 }
 
 JOBSETS['decmsg'] = {
-    'gen': {'families': {'quick': ['evolve', 'required', 'default', 'nocopy'], 'thorough': ['evolve_full', 'required', 'default', 'nocopy']}, 'bounds': {'quick': '1,1,1,2', 'thorough': '2,2,1,2'}},
+    'gen': {'families': {'quick': ['evolve', 'required', 'default', 'nocopy', 'mix'], 'thorough': ['evolve_full', 'required', 'default', 'nocopy', 'mix_full']}, 'bounds': {'quick': '1,1,1,2', 'thorough': '2,2,1,2'}},
     'kinds': ['decmsg', 'hop'],
     'cfg': {'quick': {'timeout_s': 600, 'solver_timeout_ms': 10000}, 'thorough': {'timeout_s': 3000, 'solver_timeout_ms': 60000}},
     'wall': {'quick': 2400, 'thorough': 9000},
@@ -84,10 +92,15 @@ def _depth_jobs(tier):
         for d in ds_unk:
             jobs.append({'id': 'depth/unknown/via%d/d%d' % (via, d), 'entry': FPKG + '.VerifDepthUnknown', 'setup': FPKG + '.VerifSetupDepth', 'reach': ['end'],
                          'cfg': {'params': {'d': d, 'via': via}, 'max_depth': 200000, 'step_limit': 50000000}, 'tags': ['depth']})
+    # wide structs nested deep: 30 variable-size sibling fields on every level of a 47/48-level nest (still <= 48 levels)
+    for via, d in ((0, 47), (1, 23), (2, 23), (3, 23), (4, 27)):
+        for wide in ((30,) if tier == 'quick' else (1, 30, 60)):
+            jobs.append({'id': 'depth/known/via%d/d%d/wide%d' % (via, d, wide), 'entry': FPKG + '.VerifDepthKnown', 'setup': FPKG + '.VerifSetupDepth', 'reach': ['end', 'accepted'],
+                         'cfg': {'params': {'d': d, 'via': via, 'wide': wide}, 'max_depth': 200000, 'step_limit': 50000000}, 'tags': ['depth']})
     return jobs
 
 JOBSETS['depth'] = {
-    'jobs': {t: _depth_jobs(t) + [{'id': 'depth/budget/via%d/k%d' % (v, k), 'entry': RPKG + '.VerifDepthBudget', 'reach': ['end', 'zero', 'enough', 'short'], 'cfg': {'params': {'k': k, 'via': v}}, 'tags': ['depth']} for v in (0, 1) for k in ((1, 2, 4) if t == 'quick' else (1, 2, 3, 4, 6, 8))] for t in ('quick', 'thorough')},
+    'jobs': {t: _depth_jobs(t) + [{'id': 'depth/budget/via%d/k%d' % (v, k), 'entry': RPKG + '.VerifDepthBudget', 'reach': ['end', 'zero', 'enough', 'short'], 'cfg': {'params': {'k': k, 'via': v}}, 'tags': ['depth']} for v in (0, 1) for k in ((1, 2, 4) if t == 'quick' else (1, 2, 3, 4, 6, 8))] + [{'id': 'depth/budget/via%d/k2/wide3' % v, 'entry': RPKG + '.VerifDepthBudget', 'reach': ['end', 'zero', 'enough', 'short'], 'cfg': {'params': {'k': 2, 'via': v, 'wide': 3}}, 'tags': ['depth']} for v in (0, 1)] for t in ('quick', 'thorough')},
     'cfg': {'quick': {'timeout_s': 300}, 'thorough': {'timeout_s': 900}},
     'wall': {'quick': 1200, 'thorough': 3600},
 }
@@ -151,9 +164,10 @@ JOBSETS['conc'] = {
 }
 
 PROPS = {
+    'C18': {'jobsets': ['alloc'], 'phases': [], 'translator_validation': 6},
     'C17': {'jobsets': ['legacy'], 'phases': ['', 'encode', 'decode'], 'translator_validation': 2, 'also_labels': r'^(C\d\d |M-)'},
     'C15': {'jobsets': ['depth'], 'phases': ['decode'], 'translator_validation': 4},
-    'C12': {'jobsets': ['codec', 'parse'], 'phases': ['encode', 'decode'], 'job_filter': r'codec/(Sp|Sc|Tw|Id|Li_|Se_)|parse/', 'also_labels': r'^(C01|C02|C04)'},
+    'C12': {'jobsets': ['codec', 'parse'], 'phases': ['encode', 'decode'], 'job_filter': r'codec/(Sp|Sc|Tw|Id|Li_|Se_|Mx)|parse/', 'also_labels': r'^(C01|C02|C04)'},
     'C13': {'jobsets': ['invalid', 'parse'], 'phases': ['', 'sibling'], 'translator_validation': 4, 'also_labels': r'^C07 a valid type sharing'},
     'C07': {'jobsets': ['hist', 'dec2', 'invalid'], 'phases': ['pred', 'decode', 'sibling'], 'also_labels': r'^(C03|C09|C05|C06|C01)',
             'job_filter': r'^(hist|dec2|decmsg)/|^invalid/def(%s)$' % '|'.join('%02d' % i for i in range(_NCASES - 3, _NCASES))},
@@ -163,14 +177,14 @@ PROPS = {
     'C03': {'jobsets': ['decmsg', 'bytes'], 'phases': ['decode'], 'job_filter': r'^(decmsg|bytes)/'},
     'C04': {'jobsets': ['codec'], 'phases': ['encode']},
     'C05': {'jobsets': ['bytes', 'mutmsg'], 'phases': ['decode']},
-    'C08': {'jobsets': ['conc', 'unit', 'codec', 'decmsg', 'hist'], 'phases': [], 'job_filter': r'^conc/|unit/descmap|^codec/(Sc|Li_|Mp_s|Df|Uk|Ns|Mr|Tw)|^decmsg/|^hist/', 'also_labels': r'^(C08|M-released|deadlock)'},
-    'C09': {'jobsets': ['unit', 'decmsg', 'hist', 'bytes', 'codec'], 'phases': [], 'job_filter': r'unit/bitset|Rq|Hs|By_unk|ScA_|ScD_|Id(Lo|Mid|Hi)',
+    'C08': {'jobsets': ['conc', 'unit', 'codec', 'decmsg', 'hist'], 'phases': [], 'job_filter': r'^conc/|unit/descmap|^codec/(Sc|Li_|Mp_s|Df|Uk|Ns|Mr|Tw|Mx)|^decmsg/|^hist/', 'also_labels': r'^(C08|M-released|deadlock)'},
+    'C09': {'jobsets': ['unit', 'decmsg', 'hist', 'bytes', 'codec'], 'phases': [], 'job_filter': r'unit/bitset|Rq|Hs|By_unk|ScA_|ScD_|Id(Lo|Mid|Hi)|Mx',
             'also_labels': r'^(C03 a well-formed|C03 every transmitted|C05 DecodeObject succeeds|C02 bytes equal)'},
-    'C10': {'jobsets': ['codec', 'decmsg'], 'phases': [], 'job_filter': r'Df|ScD_|LeafD|NsB',
+    'C10': {'jobsets': ['codec', 'decmsg'], 'phases': [], 'job_filter': r'Df|ScD_|LeafD|NsB|Mx',
             'also_labels': r'^(C01 round trip|C02 bytes equal|C04 EncodedSize|C03 every transmitted)'},
-    'C11': {'jobsets': ['decmsg', 'codec', 'bytes'], 'phases': [], 'job_filter': r'hop/|MinusH|Retyped|Renum|TOut|Uk|By_unk',
+    'C11': {'jobsets': ['decmsg', 'codec', 'bytes'], 'phases': [], 'job_filter': r'hop/|MinusH|Retyped|Renum|TOut|Uk|By_unk|Mx',
             'also_labels': r'^(C03 every transmitted|C03 a well-formed|C01 round trip|C02 bytes equal|C04 EncodedSize)'},
-    'C14': {'jobsets': ['decmsg', 'codec'], 'phases': [], 'job_filter': r'Nc',
+    'C14': {'jobsets': ['decmsg', 'codec'], 'phases': [], 'job_filter': r'Nc|Mx',
             'also_labels': r'^(C03 every transmitted|C01 round trip|C06 does not overlap the input)'},
     'C16': {'jobsets': ['codec', 'decmsg'], 'phases': []},
 }
@@ -280,6 +294,19 @@ MANIFEST_TEXT['C08'] = {
             'Schedule-dependent witnesses are replayed (inputs only) on a -race build of the real code up to 30 times; when the native scheduler never hits the interleaving they are reported from the engine alone '
             '(engine_only_schedule, schedule in the replay file); discipline violations likewise (engine_only_discipline). ' + _CODEC_NOTE,
     'technique': 'SSA-level symbolic execution with context-bounded schedule enumeration, vector-clock happens-before race detection and synchronisation-discipline monitors'}
+
+MANIFEST_TEXT['C18'] = {
+    'level': 'PARTIAL (necessary condition, decided for all values and shapes within the codec bounds). For every type of the codec corpus the engine executes, after the type has been registered and one size+encode of the same '
+             'value has warmed the per-type pools, EncodedSize(ptr) and EncodeObject(buf, nil, ptr) with a sufficient buffer on a symbolic value, and a monitor counts every executed operation that allocates on the heap '
+             'WHATEVER the compiler\'s escape analysis decides: append beyond capacity (growslice), make with a non-constant length or capacity, make(chan), go statements, the linknamed runtime.mallocgc, reflect.New / MakeMap / '
+             'MakeMapWithSize, a sync.Pool miss (New called), fmt.Sprintf/Sprint/Errorf, strings.Split/Join, sort.Slice. The assertion "no such operation is executed" is checked on every path (all shapes up to the bounds, '
+             'all contents symbolic). A witness is confirmed natively by the runtime.MemStats.Mallocs delta over the same region (minimum of 5 repetitions).',
+    'ref': 'DESIGN.md s7 C18',
+    'note': 'Outside the claim, and the reason this is partial: allocations that exist only because the gc compiler\'s escape analysis moves a variable, a closure, an interface box or the reflect.MapIter to the heap are invisible '
+            'at the go/ssa level this technique encodes (go/ssa marks every address-taken local as heap, which would be a false alarm on the unchanged tree), so a change that makes a local escape is NOT detected by the solver-based check; '
+            'if the native translator-validation run of the sampled jobs measures an allocation the engine did not count, the check stops with an engine/native disagreement (exit 2), not with a verdict. EncodedSize/EncodeObject called by value, '
+            'buffers that are too short and error paths are excluded by the property. sync.Pool is modelled as LIFO reuse (no GC-driven eviction). ' + _CODEC_NOTE,
+    'technique': 'SSA-level symbolic execution + SMT (z3) with an allocation-event monitor (operations that allocate independently of escape analysis); native confirmation by MemStats.Mallocs delta'}
 
 NOT_APPLICABLE = {
     'C18': 'Allocation behaviour is decided by the gc compiler\'s escape analysis/inlining and runtime internals that do not exist at the go/ssa level this technique encodes; measuring MemStats would be a different technique (DESIGN.md s7 C18).',
